@@ -149,6 +149,33 @@ pub struct WorldState {
     /// generation values seen by a third-party observer at each data-word store (C11)
     pub gen_probe: Vec<u16>,
     pub probe_on: bool,
+    /// systematic exploration: decisions come from an explicit script of indices and every
+    /// decision point (kind 0 = scheduler, 1 = load) is recorded with its arity
+    pub dfs: Option<Dfs>,
+    /// harness markers (idle / call start / call end) are scheduling points
+    pub markers_yield: bool,
+}
+
+#[derive(Default, Clone, Debug)]
+pub struct Dfs {
+    pub script: Vec<u8>,
+    pub pos: usize,
+    /// (kind, arity, chosen, costly): kind 0 = scheduler, 1 = load; a non-zero choice at a costly
+    /// point counts against the exploration bounds (a pre-emption / a stale load)
+    pub decisions: Vec<(u8, u8, u8, bool)>,
+}
+
+impl Dfs {
+    pub fn choose(&mut self, kind: u8, arity: usize, costly: bool) -> usize {
+        if arity <= 1 {
+            return 0;
+        }
+        let a = arity.min(255);
+        let c = (self.script.get(self.pos).copied().unwrap_or(0) as usize) % a;
+        self.pos += 1;
+        self.decisions.push((kind, a as u8, c as u8, costly));
+        c
+    }
 }
 
 pub struct World(pub RefCell<WorldState>);
@@ -192,6 +219,8 @@ impl World {
             trace_on: false,
             gen_probe: vec![],
             probe_on: false,
+            dfs: None,
+            markers_yield: true,
         })))
     }
 
@@ -206,7 +235,12 @@ impl World {
     /// Bring the model in line with the file: initial content, or the effect of file operations.
     pub fn sync_with_file(&self, tid: Option<usize>) {
         let mut s = self.0.borrow_mut();
-        let bytes = std::fs::read(&s.path).unwrap_or_default();
+        let bytes = match std::fs::read(&s.path) {
+            Ok(b) => b,
+            Err(e) if e.kind() == std::io::ErrorKind::NotFound => vec![],
+            // anything else (EMFILE, EIO ...) is a problem of the harness, not a property of the code
+            Err(e) => panic!("HARNESS: cannot read the segment file {}: {}", s.path.display(), e),
+        };
         s.file_len = bytes.len();
         let mut padded = bytes.clone();
         padded.resize(72, 0);
@@ -319,8 +353,13 @@ impl World {
         let lo = s.threads[tid].cur[loc] as usize;
         let len = s.locs[loc].len();
         let span = len - lo;
-        let c = if span > 1 { Self::next_read_choice(&mut s) } else { 0 };
-        let back = crate::runner::pick(c, span);
+        let back = match s.dfs.as_mut() {
+            Some(d) => d.choose(1, span, true),
+            None => {
+                let c = if span > 1 { Self::next_read_choice(&mut s) } else { 0 };
+                crate::runner::pick(c, span)
+            }
+        };
         let idx = len - 1 - back;
         let msg = s.locs[loc][idx].clone();
         let is_writer = s.threads[tid].is_writer;
@@ -429,13 +468,16 @@ impl World {
                 return;
             }
             let runnable = s.runnable;
+            let s_markers_yield = s.markers_yield;
             let th = &mut s.threads[tid];
             let at_stop = th.stop_at == Some(th.sched_points);
             th.sched_points += 1;
             if let Pending::Stop(n) = p {
                 th.last_pending_name = Some(n);
             }
-            let y = !(th.free_run || runnable <= 1 && !matches!(p, Pending::Wait(_) | Pending::Idle | Pending::CallStart(_) | Pending::CallEnd));
+            let is_marker = matches!(p, Pending::Wait(_) | Pending::Idle | Pending::CallStart(_) | Pending::CallEnd);
+            let markers_yield = s_markers_yield;
+            let y = !(th.free_run || runnable <= 1 && !is_marker) && !(is_marker && !markers_yield);
             let total = th.accesses_total;
             if total > s.access_budget {
                 s.budget_exceeded = true;
